@@ -18,6 +18,10 @@ class NPFacade:
     def array(self, obj, dtype=None, **kw):
         if has_sym(obj):
             return np.array(obj, dtype=object, **kw)
+        if dtype in (float, np.float64):
+            # a float64 request in code that later mixes in symbolic values (x /= weight):
+            # keep Python floats in an object array (same IEEE operations element-wise)
+            return np.array(np.array(obj, dtype=np.float64, **kw), dtype=object)
         return np.array(obj, dtype=dtype, **kw)
 
     def zeros(self, shape, dtype=None, **kw):
@@ -58,6 +62,8 @@ class NPFacade:
             return x.sqrt()
         if isinstance(x, np.ndarray) and x.dtype == object:
             return np.array([self.sqrt(e) for e in x.flat], dtype=object).reshape(x.shape)
+        if isinstance(x, float):
+            return np.float64(x) ** 0.5 if x >= 0 else np.sqrt(x)
         return np.sqrt(x)
 
 
